@@ -203,6 +203,29 @@ func TestC18Transport(t *testing.T) {
 	})
 }
 
+// TestC18Real: the lifecycle sequences over the real gNMI transport and an
+// in-process gRPC server (real.go).
+func TestC18Real(t *testing.T) {
+	if !vstat.Enabled(propertyID) {
+		t.Skip()
+	}
+	rec := vstat.New(propertyID, "real")
+	rec.RunRapid(t, func(rt *rapid.T) {
+		sc := genReal(rt)
+		rec.Current(sc)
+		st, err := runReal(sc)
+		if inc, ok := err.(*errInconclusive); ok {
+			rec.Note("INCONCLUSIVE case (not judged): %s; scenario %s", inc.what, mustJSON(sc))
+			rec.Label("inconclusive-guard-expired")
+			rt.Skip("inconclusive: " + inc.what)
+		}
+		rec.Case(sc, st.nontriv, st.labelList()...)
+		if err != nil {
+			rt.Fatalf("%s", rec.Fail(sc, classOf(err), "%v", err))
+		}
+	})
+}
+
 func mustJSON(v any) string {
 	b, _ := json.Marshal(v)
 	return string(b)
@@ -247,6 +270,23 @@ func replayOne(t *testing.T, rf *vstat.ReplayFile) string {
 		// a real-time case: give a flaky environment three chances to complete
 		for i := 0; i < 3; i++ {
 			_, err := runTransport(&sc)
+			if _, inconclusive := err.(*errInconclusive); inconclusive {
+				continue
+			}
+			if err != nil {
+				return err.Error()
+			}
+			return ""
+		}
+		return "inconclusive: completion not observed in three runs"
+	case "real":
+		var sc RScenario
+		if err := json.Unmarshal(rf.Scenario, &sc); err != nil {
+			return "bad scenario: " + err.Error()
+		}
+		// a real-time case: give a flaky environment three chances to complete
+		for i := 0; i < 3; i++ {
+			_, err := runReal(&sc)
 			if _, inconclusive := err.(*errInconclusive); inconclusive {
 				continue
 			}
